@@ -407,6 +407,17 @@ def run(tier, seed):
             st["span_" + sv.split(":")[0]] += 1
             if sv.startswith("mismatch"):
                 notes.append("span %s %s %s: %s" % (p["fam"], v, sv, p["src"].replace("\n", " ; ")[:400]))
+        # B3 verdicts on the facts alone: a name the transcribed MarkOverflowingArithmetic marks must be marked by the
+        # real one, and a marked name must not keep a C integer type (safe_spanning_type's guard)
+        if p["facts"]:
+            missing = sorted((set(stc["marks"]) & set(p["locals"])) - set(p["mk"])) + sorted("lambda:" + v for v in set(stc["lmarks"]) - set(p["lmk"]))
+            if missing:
+                rep.disagree({"part": "static", "kind": "mark_missing"}, "fact", {"family": p["fam"], "source": p["src"], "transcribed_marks": stc["marks"],
+                             "exported_marks": p["mk"], "missing": missing})
+            bad_c = sorted(v for v, sv in (stc["span"] or {}).items() if sv == "mismatch:marked_c_int")
+            if bad_c:
+                rep.disagree({"part": "static", "kind": "marked_name_is_c_integer"}, "fact", {"family": p["fam"], "source": p["src"], "locals": bad_c,
+                             "types": {v: p["ty"][v] for v in bad_c}})
         if not stc["frag"] or not stc["mark_ok"]:
             notes.append("frag=%s mark_ok=%s marks=%s real=%s lmarks=%s real=%s %s: %s" % (stc["frag"], stc["mark_ok"], stc["marks"], p["mk"], stc["lmarks"], p["lmk"], p["fam"], p["src"].replace("\n", " ; ")[:400]))
         for k, inp in enumerate(p["inputs"]):
